@@ -10,6 +10,16 @@ NOTE_COMMON = ("Trusted: Verus 0.2026.09.13 + Z3; the extractor's logged rewrite
                "std/serde_json stand-ins listed in evidence.coverage.trusted_base (external_body / assume_specification / uninterp); ")
 
 CLAIMED = {
+    "C16": {
+        "text": "Proof, for the ADDRESS-FORM SLICE of the property only: varlink_connect (client) and Listener::new (server, activated or not) return InvalidAddress for every "
+                "address that starts with neither `tcp:` nor `unix:`, succeed only for those schemes, and cut `;parameters` off before connecting / binding; "
+                "activation_listener returns a descriptor only when LISTEN_FDS parses to n >= 1 and LISTEN_PID parses to this process id (3 for one fd, otherwise 3 + the index of "
+                "the first `varlink` entry of LISTEN_FDNAMES), and an activated Listener is only ever built from such a descriptor. NOT claimed: spawning, descriptor inheritance, "
+                "the environment given to a child, bridge stdio, and that all transports yield the same reply sequence (those clauses have no function-level contract).",
+        "note": NOTE_COMMON + "str::strip_prefix/starts_with, split(';'), split(':').enumerate(), parse::<usize>, env::var, process::id and socket bind/connect are stand-ins with assumed contracts; "
+                "`unsafe` from_raw_fd blocks are opaque; `#[cfg(windows)]` code is dropped; seeded changes to the unclaimed clauses of C16 will not be detected by this check.",
+        "ref": "5-C16",
+    },
     "C15": {
         "text": "Proof of the sequential obligations under an assumed clock model: in listen()'s accept loop a timeout error is returned only when the ghost idle clock has "
                 "reached idle_timeout*1000 ms since the last accepted connection AND the pool counter just read is 0 (nothing queued or being served); with a stop flag the "
@@ -90,7 +100,6 @@ NOT_APPLICABLE = {
     "C11": "the accepted language is defined by the peg::parser! macro expansion (Verus cannot ingest it; Kani did not finish on 4 symbolic bytes); the from_token duplicate-detection slice was not built",
     "C12": "totality of the macro-generated recursive-descent parser over arbitrary Unicode and nesting; no function-level contract within the verifier's reach (DESIGN.md section 7)",
     "C13": "quantifies over thread schedules and timing of 2..64 OS connections; the installed Verus has no thread model and Kani has no threads (DESIGN.md section 7)",
-    "C16": "processes, file descriptors, environment of a forked child and transport equivalence are outside any function contract; the scheme-rejection / activation-gating slice was not built",
     "C18": "relation between two process executions (stdio of `varlink bridge`, epoll close-watching, child processes); no contract can express process exit status",
     "C19": "the certification step slice (13 step methods with macro-expanded checks over generated types) was not built; nothing is claimed",
     "C20": "stdout/stderr/exit status of the CLI through clap, println!, colored_json; the URL split cannot be isolated from connection side effects without rewriting it",
